@@ -39,9 +39,9 @@ func (x *Exec) convert(v Term, from, to types.Type) Term {
 		return x.convInt(v, isSigned(from), ts.bvWidth())
 	case fs.isBV() && ts == SF64:
 		if isSigned(from) {
-			return T(SF64, "((_ to_fp 11 53) RNE %s)", v.S)
+			return x.vc.defineFloat("i2f", T(SF64, "((_ to_fp 11 53) RNE %s)", v.S))
 		}
-		return T(SF64, "((_ to_fp_unsigned 11 53) RNE %s)", v.S)
+		return x.vc.defineFloat("u2f", T(SF64, "((_ to_fp_unsigned 11 53) RNE %s)", v.S))
 	case fs == SF64 && ts.isBV():
 		w := ts.bvWidth()
 		// amd64: cvttsd2si (64-bit); NaN/out-of-range -> 0x8000000000000000, then truncated for narrower types
@@ -49,7 +49,7 @@ func (x *Exec) convert(v Term, from, to types.Type) Term {
 		inRange := T(SBool, "(and (not (fp.isNaN %s)) (fp.geq %s %s) (fp.lt %s (fp.neg %s)))", v.S, v.S, lo, v.S, lo)
 		conv := T(SBV(64), "((_ fp.to_sbv 64) RTZ %s)", v.S)
 		r := ite(inRange, conv, bvLit(64, new(big.Int).Lsh(big.NewInt(1), 63)))
-		r = x.vc.define("f2i", r)
+		r = x.vc.defineFloat("f2i", r)
 		return x.convInt(r, true, w)
 	case fs == ts:
 		return v
@@ -100,13 +100,13 @@ func (x *Exec) binop(op token.Token, a, b Term, t types.Type, yT types.Type) Ter
 	if s == SF64 {
 		switch op {
 		case token.ADD:
-			return T(s, "(fp.add RNE %s %s)", a.S, b.S)
+			return x.vc.defineFloat("fadd", T(s, "(fp.add RNE %s %s)", a.S, b.S))
 		case token.SUB:
-			return T(s, "(fp.sub RNE %s %s)", a.S, b.S)
+			return x.vc.defineFloat("fsub", T(s, "(fp.sub RNE %s %s)", a.S, b.S))
 		case token.MUL:
-			return T(s, "(fp.mul RNE %s %s)", a.S, b.S)
+			return x.vc.defineFloat("fmul", T(s, "(fp.mul RNE %s %s)", a.S, b.S))
 		case token.QUO:
-			return T(s, "(fp.div RNE %s %s)", a.S, b.S)
+			return x.vc.defineFloat("fdiv", T(s, "(fp.div RNE %s %s)", a.S, b.S))
 		case token.EQL:
 			return cmp("fp.eq")
 		case token.NEQ:
